@@ -129,6 +129,8 @@ impl<F: Float> FFT<F> {
             }
             return;
         }
+        // the root table must cover n before its size is used below (a fresh object has only 4 entries)
+        self.update_n(n);
         let buf = &mut self.bufs[0];
         buf.clear();
         buf.resize(v.len(), Complex::ZERO);
